@@ -149,8 +149,11 @@ def gen_supplemental(rnd):
     buf = io.StringIO()
     w = csv.writer(buf, lineterminator='\n')
     w.writerow(['Date', 'Item', 'Amount', 'Qty'])
+    if rnd.random() < .3:
+        # an order that has no date yet (pending): its date cell is empty; it is a row like the others
+        rows.insert(rnd.randint(0, len(rows)), {'date': '', 'item': 'Pending thing', 'amount': rnd.choice([7.0, 20.0]), 'qty': '1'})
     for r in rows:
-        w.writerow([r['date'].isoformat(), r['item'], '%.2f' % r['amount'], r['qty']])
+        w.writerow([r['date'].isoformat() if r['date'] else '', r['item'], '%.2f' % r['amount'], r['qty']])
     settings = {'name': 'orders', 'file': 'data/orders.csv', 'format': '{date:%Y-%m-%d},{item},{amount},{qty}', 'columns': {'description': '{item}'},
                 'supplemental': True}
     return {'settings': settings, 'text': buf.getvalue(), 'rows': rows, 'name': 'orders'}
